@@ -15,13 +15,17 @@ def scaled(raw, k):
 
 
 def near_twin(rng, raw):
-    """Same row with one coefficient moved by a relative 2^-17 (about 8e-6): a different constraint
-    that a tolerant term equality would take for a duplicate."""
+    """(base, twin): the row scaled by 10^5 (same constraint) and a copy with one coefficient larger by 1 --
+    a DIFFERENT constraint (it differs by the whole value of that variable) that a tolerant term
+    equality (relative 1e-5) takes for a duplicate.  Integers only, so TLC can evaluate small witnesses."""
     co, c = raw
-    v = min(sorted(co), key=lambda x: (abs(co[x]), x))
-    co2 = dict(co)
-    co2[v] = co[v] * (1 + 2.0**-17)
-    return (co2, c)
+    co = {v: a for v, a in co.items() if float(a).is_integer()} or {sorted(co)[0]: 1}
+    c = max(-1, min(1, int(c))) if float(c).is_integer() else 0     # a small bound keeps the tolerance small
+    base = ({v: int(a) * 100000 for v, a in co.items()}, c * 100000)
+    v = min(sorted(co), key=lambda x: (-abs(co[x]), x))
+    twin = (dict(base[0]), base[1])
+    twin[0][v] = base[0][v] + (1 if base[0][v] > 0 else -1)
+    return base, twin
 
 
 def weakened(raw, d):
@@ -53,7 +57,12 @@ def viewpoint_pair(rng, shape, dyadic=0.0):
             if cands and rng.random() < 0.5:
                 r = rng.choice(cands)
                 how = rng.random()
-                dst[part].append(r if how < 0.3 else (scaled(r, 2) if how < 0.55 else (weakened(r, rng.randint(1, 2)) if how < 0.8 else near_twin(rng, r))))
+                if how >= 0.8:
+                    base, twin = near_twin(rng, r)
+                    src[part][src[part].index(r)] = base
+                    dst[part].append(twin)
+                else:
+                    dst[part].append(r if how < 0.3 else (scaled(r, 2) if how < 0.55 else weakened(r, rng.randint(1, 2))))
     return d1, d2
 
 
